@@ -157,6 +157,53 @@ pub fn check_model(spec: &LmSpec, l: &mut Local) {
             other => l.violation("builder-door-no-answer", format!("the free function answers but the Clarabel solver object does not: {:?}", other.map(|r| r.map(|_| ()).map_err(|e| e.to_string()))), case(&Some(sol.clone()))),
         }
     }
+    // the compiled door: the same model written as source text, compiled (which publishes derived
+    // bounds) and solved; the prices must still be the sensitivities of the model the user wrote
+    if spec.rows.iter().all(|r| !r.name.is_empty()) {
+        let text = lm.to_string();
+        let compiled = crate::core::catch(|| rooc::RoocParser::new(text.clone()).parse_and_transform(vec![], &indexmap::IndexMap::new()).map_err(|e| e.to_string()).and_then(|m| rooc::Linearizer::linearize(m).map_err(|e| e.to_string())));
+        match compiled {
+            Ok(Ok(clm)) => {
+                l.count("compiled_door:compiled");
+                let (cout, csol) = run_solver(SolverKind::Clarabel, &clm);
+                if let (Outcome::Ok, Some(csol)) = (&cout, csol) {
+                    // which declared domains were tightened, and is a tightened end tight at the optimum?
+                    let x = match exact::solve_lp(&spec.to_exact()) {
+                        LpResult::Optimal { x, .. } => x,
+                        _ => vec![],
+                    };
+                    let mut tightened_and_tight = false;
+                    for (i, (name, dom)) in spec.vars.iter().enumerate() {
+                        if let Some(cd) = clm.domain().get(name) {
+                            let (lo0, hi0) = dom.bounds();
+                            let (lo1, hi1) = crate::lm::Dom::from_vt(cd.get_type()).bounds();
+                            if let Some(v) = x.get(i) {
+                                let v = to_f64(v);
+                                if (lo1 > lo0 && (v - lo1).abs() <= 1e-6 * v.abs().max(1.0)) || (hi1 < hi0 && (v - hi1).abs() <= 1e-6 * v.abs().max(1.0)) {
+                                    tightened_and_tight = true;
+                                }
+                            }
+                        }
+                    }
+                    for (r, row) in spec.rows.iter().enumerate() {
+                        let want = to_f64(&prices[r]);
+                        let reported: Vec<f64> = csol.shadow.iter().filter(|(n, _)| n == &row.name).map(|(_, v)| *v).collect();
+                        l.count("compiled_door:prices_checked");
+                        let bad = reported.len() != 1 || (reported[0] - want).abs() > TOL * want.abs().max(1.0);
+                        if bad {
+                            let cause = if tightened_and_tight { "derived-bound-tight-at-the-optimum" } else { "other" };
+                            l.violation(format!("compiled:price-differs-from-sensitivity:{cause}"), format!("row {}: the compiled model reports {:?}, the sensitivity of the written model is {want}", row.name, reported), json!({"source": text, "compiled": clm.to_string(), "expected_prices": prices.iter().map(to_f64).collect::<Vec<_>>(), "reported": csol.shadow}));
+                            break;
+                        }
+                    }
+                } else {
+                    l.count("compiled_door:no-answer");
+                }
+            }
+            Ok(Err(e)) => l.violation("compiled:rendering-rejected", format!("the rendering of the model does not compile: {e}"), json!({"source": text})),
+            Err(p) => l.violation("compiled:panic", p, json!({"source": text})),
+        }
+    }
     // unnamed rows report none; no price for unknown names
     for (name, _) in &sol.shadow {
         if name.is_empty() {
@@ -217,7 +264,7 @@ pub fn run(mut run: Run) -> ! {
     crate::core::silence_panics();
     run.isolate = true;
     run.case_timeout_s = 10.0;
-    run.rule = "every member of finite continuous LinearModel families with named rows (and every subset of rows left unnamed) is filtered exactly to unique non-degenerate optima (exactly n linearly independent tight constraints, all multipliers non-zero) whose rhs perturbations of +-1/1024 stay in the basis-stability range; each such model is solved with solve_real_lp_problem_clarabel and every reported shadow price compared with the exact sensitivity; the builder door (Clarabel solver object, DualValues::shadow_price(name)) must report bit-identical prices and none for unknown names; distinct = canonical model text".into();
+    run.rule = "every member of finite continuous LinearModel families with named rows (and every subset of rows left unnamed) is filtered exactly to unique non-degenerate optima (exactly n linearly independent tight constraints, all multipliers non-zero) whose rhs perturbations of +-1/1024 stay in the basis-stability range; each such model is solved with solve_real_lp_problem_clarabel and every reported shadow price compared with the exact sensitivity; the builder door (Clarabel solver object, DualValues::shadow_price(name)) must report bit-identical prices and none for unknown names; the compiled door (the model written as source text, compiled with its derived bounds published, solved) must report the sensitivities of the written model; distinct = canonical model text".into();
     run.assume("exact multipliers from the n x n tight-constraint system over BigRational, self-checked on every model against exact two-sided finite differences of the optimal value");
     run.assume("tolerance 1e-5 (interior-point accuracy); models on which Clarabel gives no answer or a wrong optimum are counted and left to C05");
     for fam in families(run.quick()) {
